@@ -518,6 +518,41 @@ def extra_checks(ctx):
                 "failing_argument_bits": bits, "impl": r["raw"],
                 "reference": f"recorded max_ulp={c['max_ulp']} special={c['special']}; allowed max_ulp<={bound} special=0"}))
         worst.append((r["max_ulp"], tag))
+    # special points: zeros, infinities, NaN, +-1 and neighbours, extreme magnitudes (and pairs of them for the
+    # two-argument functions): NaN / infinity placement must agree with libm and the error must stay within the
+    # recorded one, unless the point is recorded as inaccurate (known findings name representatives)
+    pts = table.get("points", [])
+    plines = [f"{q['name']} {q['fmt']} {q['x']} {q['x']} 1" + (f" {q['y']}" if "y" in q else "") for q in pts]
+    pres = [None] * len(plines)
+    start = 0
+    while start < len(plines):
+        part = _approx_run(exe, plines[start:])
+        k = 0
+        while k < len(part) and part[k] is not None:
+            pres[start + k] = part[k]
+            k += 1
+        start += k + 1
+    pts_checked = pts_recorded_bad = 0
+    for q, r, line in zip(pts, pres, plines):
+        tag = f"{q['name']} binary{q['fmt']} at special point x={q['x']}" + (f" y={q['y']}" if "y" in q else "")
+        recorded_bad = q.get("crash") or q.get("special", 0) > 0 or q.get("max_ulp", 0) > APPROX_GROSS_ULP
+        if r is None:
+            if not q.get("crash"):
+                by_fn.setdefault(q["name"], []).append((float("inf"), {
+                    "property": "C16", "kind": "approximate function crashes or hangs on this special argument",
+                    "case": "approx " + line, "cell": tag}))
+            continue
+        evaluations += 1
+        if recorded_bad:
+            pts_recorded_bad += 1
+            continue
+        pts_checked += 1
+        bound = max(APPROX_FLOOR, APPROX_MARGIN * q["max_ulp"])
+        if r["special"] > 0 or r["max_ulp"] > bound:
+            by_fn.setdefault(q["name"], []).append((float("inf") if r["special"] else r["max_ulp"] / bound, {
+                "property": "C16", "kind": "approximate function deviates from libm at a special argument (NaN / infinity placement or error bound)",
+                "case": "approx " + line, "cell": tag, "failing_argument_bits": q["x"], "impl": r["raw"],
+                "reference": f"recorded max_ulp={q['max_ulp']} special=0 (got {q.get('got')} want {q.get('want')}); allowed max_ulp<={bound} special=0"}))
     for fn, lst in sorted(by_fn.items()):
         lst.sort(key=lambda t: -t[0])
         payload = dict(lst[0][1])
@@ -546,7 +581,7 @@ def extra_checks(ctx):
         a = k.get("approx")
         if not a:
             continue
-        r = _approx_run(exe, [f"{a['name']} {a['fmt']} {a['bits']} {a['bits']} 1"])[0]
+        r = _approx_run(exe, [f"{a['name']} {a['fmt']} {a['bits']} {a['bits']} 1" + (f" {a['y']}" if "y" in a else "")])[0]
         still = r is not None and (r["max_ulp"] >= a.get("min_ulp", float("inf")) or (a.get("special") and r["special"] > 0))
         if still:
             ctx.reported_known.add(k["id"])
@@ -559,6 +594,7 @@ def extra_checks(ctx):
     ctx.evidence = {"approximate_set": {
         "status": "measured against glibc libm (long double), not proved",
         "cells_checked_against_recorded_bound": checked, "cells_recorded_as_inaccurate_not_bounded": gross,
+        "special_points_checked": pts_checked, "special_points_recorded_as_inaccurate": pts_recorded_bad,
         "evaluations": evaluations, "margin": APPROX_MARGIN, "floor_ulp": APPROX_FLOOR,
         "largest_errors_in_checked_cells": [f"{u:.1f} ulp {t}" for u, t in worst[:8]]}}
     return items
